@@ -45,6 +45,60 @@ func TestC13(t *testing.T) {
 			os.WriteFile(path, content, 0o755)
 		}
 		var o spec.C13Obs
+		if p.PathKind != "" {
+			tampered := append(append([]byte(nil), content...), '#', 'x')
+			kind, which, _ := strings.Cut(p.PathKind, "-")
+			at := content // what the kernel will execute
+			other := tampered
+			if which == "tampered" {
+				at, other = tampered, content
+			}
+			switch kind {
+			case "dotdot":
+				os.MkdirAll(filepath.Join(d, "a"), 0o755)
+				os.MkdirAll(filepath.Join(d, "b", "sub"), 0o755)
+				os.Symlink(filepath.Join(d, "b", "sub"), filepath.Join(d, "a", "link"))
+				os.WriteFile(filepath.Join(d, "b", "bin"), at, 0o755)
+				os.WriteFile(filepath.Join(d, "a", "bin"), other, 0o755)
+				path = filepath.Join(d, "a", "link") + "/../bin"
+			case "symlink":
+				os.WriteFile(filepath.Join(d, "real-bin"), at, 0o755)
+				os.WriteFile(filepath.Join(d, "decoy-bin"), other, 0o755)
+				path = filepath.Join(d, "link-bin")
+				os.Symlink(filepath.Join(d, "real-bin"), path)
+			}
+			// what is at the path as the kernel resolves it
+			if b, err := os.ReadFile(path); err == nil {
+				h := newHash(p.Hash)
+				h.Write(b)
+				o.FileSum = h.Sum(nil)
+			}
+			cfg := baseClientConfig()
+			cfg.StartTimeout = 600 * time.Millisecond
+			hostSetFor(cfg, "netrpc")
+			cfg.Cmd = &exec.Cmd{Path: path, Args: []string{path}} // exactly this spelling, no LookPath clean-up
+			cfg.Cmd.Env = []string{"VERIF_MARKER_DIR=" + d}
+			cfg.SecureConfig = &plugin.SecureConfig{Checksum: p.Checksum, Hash: newHash(p.Hash)}
+			cl := plugin.NewClient(cfg)
+			_, err := cl.Start()
+			o.Err = errStr(err)
+			o.IsMismatch = errors.Is(err, plugin.ErrChecksumsDoNotMatch) || (err != nil && strings.Contains(err.Error(), plugin.ErrChecksumsDoNotMatch.Error()))
+			o.ProcessSet = cfg.Cmd.Process != nil
+			for i := 0; i < 1000 && o.ProcessSet; i++ {
+				if _, err := os.Stat(marker); err == nil {
+					break
+				}
+				time.Sleep(10 * time.Millisecond)
+			}
+			_, merr := os.Stat(marker)
+			o.Marker = merr == nil
+			if cfg.Cmd.Process != nil {
+				cfg.Cmd.Process.Kill()
+			}
+			within(20*time.Second, cl.Kill)
+			e.Ret("h", "Start", o)
+			return
+		}
 		if len(p.Steps) > 0 {
 			sc := &plugin.SecureConfig{Checksum: p.Checksum, Hash: newHash(p.Hash)}
 			for i, st := range p.Steps {
